@@ -41,12 +41,15 @@ def _worker(wfd, cases, run_case, next_idx, case_timeout, init):
                 break
             out.write(json.dumps({"start": i}) + "\n")
             out.flush()
-            faulthandler.dump_traceback_later(case_timeout, exit=True)
+            # watchdog: SIGALRM with its default disposition kills the process whatever code
+            # (Python, C, a simulated thread on its own stack) is running; no handler involved
+            signal.signal(signal.SIGALRM, signal.SIG_DFL)
+            signal.setitimer(signal.ITIMER_REAL, float(case_timeout))
             try:
                 res = run_case(cases[i])
             except BaseException:
                 res = {"harness_error": traceback.format_exc()[-4000:]}
-            faulthandler.cancel_dump_traceback_later()
+            signal.setitimer(signal.ITIMER_REAL, 0.0)
             out.write(json.dumps({"done": i, "res": res}) + "\n")
             out.flush()
     finally:
@@ -262,10 +265,32 @@ def run_engine(engine, prop, argv=None):
         if res is None:
             continue
         if "crashed" in res:
+            status = res["crashed"]
+            timed_out = os.WIFSIGNALED(status) and os.WTERMSIG(status) == signal.SIGALRM  # watchdog
+            if timed_out:
+                # a watchdog kill may just be a slow machine: run the case once more, alone, with
+                # three times the allowance, before anything is concluded from it
+                again = run_pool(
+                    [spec],
+                    engine.run_case,
+                    nproc=1,
+                    case_timeout=3 * getattr(engine, "CASE_TIMEOUT", 600),
+                    init=(lambda g=spec.get("group"): engine.init_group(g)) if getattr(engine, "GROUPS", None) else None,
+                )[0]
+                if again is not None and "crashed" not in again:
+                    res = again
+                    if "harness_error" in res:
+                        harness_errors.append("case %s: %s" % (json.dumps(spec)[:200], res["harness_error"]))
+                        continue
+                    done.append((spec, res))
+                    for v in res.get("violations", []):
+                        viols.append(v)
+                    continue
+                status = again["crashed"] if again else status
             h = getattr(engine, "on_crash", None)
-            v = h(spec, res["crashed"]) if h else None
+            v = h(spec, status) if h else None
             if v is None:
-                harness_errors.append("worker died (status %s) on case %s" % (res["crashed"], json.dumps(spec)[:300]))
+                harness_errors.append("worker died (status %s%s) on case %s" % (status, ", watchdog timeout twice" if timed_out else "", json.dumps(spec)[:300]))
             else:
                 viols.append(v)
             continue
